@@ -95,7 +95,7 @@ def run(ctx):
                 continue
             short = path
             try:
-                tab = T.map_ser_table(fn)
+                tab = W.ser_table(F, fn)
             except T.Unreadable as e:
                 ctx.violation("C03|unreadable|" + short, "UNREADABLE-IMPL: Serialize for %s: %s" % (path, e), cfg=cfg, where=fn["sp"])
                 continue
@@ -223,7 +223,7 @@ def run(ctx):
             if kind in ("indexed", "text"):
                 # only members that are actually emitted (skip_serializing members never reach the wire)
                 try:
-                    emitted = {e["field"] for e in T.map_ser_table(fn)["entries"]}
+                    emitted = {e["field"] for e in W.ser_table(F, fn)["entries"]}
                 except T.Unreadable:
                     emitted = None
                 for v in adt["variants"]:
